@@ -796,12 +796,18 @@ def _mono_guard(ctx, f, m, first_new):
                 text(prev.test).replace(" ", "") in ("%s._ordered" % base,
                                                      "%s.isOrdered()" % base):
             for st in prev.body:
-                if isinstance(st, ast.Assert):
-                    ds = pat.disjuncts(st.test)
+                test = st.test if isinstance(st, ast.Assert) else None
+                raw = False
+                if test is None and isinstance(st, ast.Expr):
+                    # the assert may live in a one-assert checking method
+                    test = pat.checker_call(ctx, f, st.value)
+                    raw = True
+                if test is not None:
+                    ds = pat.disjuncts(test)
                     have_none = False
                     have_lt = False
                     for d in ds:
-                        p = pat.cmp_parts(ctx, f, d)
+                        p = pat.cmp_raw(d) if raw else pat.cmp_parts(ctx, f, d)
                         if p is None:
                             continue
                         mc = "%s.maxCoord()" % base
@@ -811,10 +817,10 @@ def _mono_guard(ctx, f, m, first_new):
                                 p[2].replace(" ", "") == first_new.replace(" ", ""):
                             have_lt = True
                     if have_none and have_lt and len(ds) == 2:
-                        return True, text(st.test)
+                        return True, text(test)
                     return False, ("the monotonicity assert is `%s`, not "
                                    "`maxCoord() is None or maxCoord() < %s`"
-                                   % (text(st.test), first_new))
+                                   % (text(test), first_new))
     return False, "no `if %s._ordered: assert ...` guard before the write" % base
 
 
@@ -962,7 +968,12 @@ def r4_helpers(ctx):
                 continue
             lin += 1
             elem = [x for x in a[1:] if x.endswith("[%s]" % iv)][0]
-            ordered = any("_ordered" in text(t) and pol for t, pol in guards(n))
+            gs_ = pat.catoms_of_guards(ctx, f, n)
+            ordered = pat.T("%s._ordered" % f.params[0]) in gs_
+            if not ordered and pat.T("%s._ordered" % f.params[0], False) not in gs_:
+                raise AnalysisError("C01.R4: cannot tell whether the linear search "
+                                    "at line %d of _coord2pos is the ordered or the "
+                                    "unordered one" % n.lineno)
             expect = pat.A("<=", cparam, elem) if ordered else pat.A("==", elem, cparam)
             if a == expect or (a == pat.A("==", elem, cparam) and not ordered):
                 ctx.ok("C01.R4", f, n, "linear search stops at the first "
@@ -1038,7 +1049,9 @@ def r5_reject_before_write(ctx, by_func):
         ms = by_func.get(f, [])
         g = cfg_of(f)
         rejects = [n for n in g.stmts if isinstance(n, ast.Raise) or
-                   (isinstance(n, ast.Assert) and "isLazy" not in text(n.test))]
+                   (isinstance(n, ast.Assert) and "isLazy" not in text(n.test)) or
+                   (isinstance(n, ast.Expr) and
+                    pat.checker_call(ctx, f, n.value) is not None)]
         ctx.require(rejects, "C01.R5: no rejecting statement found in %s" % f.key)
         for m in ms:
             late = [r for r in rejects if g.can_reach(m.stmt, r)]
